@@ -377,6 +377,10 @@ func RuleW26(r *Report, p *Program) {
 	w := NewWalker(p)
 	w.LoopFuel = 2
 	w.ForceBool = true
+	// format lists of 0, 1 and 2 elements; expressions of up to two elements (a bit set built from the list) are
+	// split exactly over the small domain of the format type
+	w.Finite = true
+	w.RangeCap = 2
 	up := p.SSAPkg("uhppote")
 	w.Inline = func(f *ssa.Function, d int) bool {
 		if pk := pkgOf(f); pk != nil && (pk.Pkg.Path() == "slices" || pk.Pkg.Path() == "cmp") {
@@ -408,20 +412,22 @@ func RuleW26(r *Report, p *Program) {
 		if !res {
 			continue
 		}
-		// which format accepted? the last examined element of the list
+		// which format accepted? some element of the list is known to be it (in whatever order the code examines
+		// the list: element by element, or collected into a set first); 'any' accepts every number
 		wiegand26 := false
 		anyFmt := false
-		last := -1
 		for k, v := range pa.State.Ints {
 			if strings.HasPrefix(k, "formats[") {
-				var ix int
-				fmt.Sscanf(k, "formats[%d]", &ix)
-				if ix > last {
-					last = ix
-					wiegand26 = v.Equal(IntervalSet{{1, 1}})
-					anyFmt = v.Equal(IntervalSet{{0, 0}})
+				if v.Equal(IntervalSet{{1, 1}}) {
+					wiegand26 = true
+				}
+				if v.Equal(IntervalSet{{0, 0}}) {
+					anyFmt = true
 				}
 			}
+		}
+		if anyFmt {
+			wiegand26 = false
 		}
 		if !wiegand26 && !anyFmt {
 			badF = "a card is accepted without matching a listed format: [" + cut(pa.State.Describe(), 160) + "]"
@@ -1280,7 +1286,8 @@ func RuleJSONStructs(r *Report, p *Program) {
 			bad = "the encoder writes the keys {" + keysOf(ws) + "}, the decoder reads {" + keysOf(rs) + "}"
 		}
 		// field wiring on the success path
-		paths := walkSimple(p, uj, []string{"dst", "in"}, nil)
+		// unexported helpers of the package (a DTO's conversion method, say) are part of the decoder
+		paths := walkSimple(p, uj, []string{"dst", "in"}, typesHelpers(p))
 		nOK := 0
 		for _, pa := range paths {
 			if pa.Outcome != "return" || errNilness(pa, pa.Results[0]) != 1 {
@@ -1290,6 +1297,18 @@ func RuleJSONStructs(r *Report, p *Program) {
 			for _, c := range pa.SymCells {
 				if c.Name == "dst" {
 					final = c.Val
+				}
+			}
+			// the value assigned as a whole (*t = T(decoded)): its fields are the fields of what was decoded
+			for final != nil && final.Op == "conv" && len(final.Args) == 1 && final.Args[0].Typ != nil {
+				if _, isSt := final.Args[0].Typ.Underlying().(*types.Struct); !isSt {
+					break
+				}
+				final = final.Args[0]
+			}
+			if final != nil && final.Op != "struct" && final.Op != "deref" && final.Typ != nil {
+				if ms := materialiseStruct(final); ms != nil {
+					final = ms
 				}
 			}
 			if final == nil || final.Op != "struct" {
@@ -1328,7 +1347,10 @@ func RuleJSONStructs(r *Report, p *Program) {
 		if mj != nil && uj != nil {
 			w, rd := map[string]bool{}, map[string]bool{}
 			collectCallConsts(mj, "fmt.Sprintf", 0, w, 0, p)
+			collectCallConsts(mj, "fmt.Appendf", 1, w, 0, p)
+			collectCallConsts(mj, "fmt.Fprintf", 1, w, 0, p)
 			collectCallConsts(uj, "fmt.Sscanf", 1, rd, 0, p)
+			collectCallConsts(uj, "fmt.Fscanf", 1, rd, 0, p)
 			if len(w) == 0 {
 				// hex.EncodeToString of the value's bytes, most significant first, is the same text as %0Nx (2N digits)
 				tpk := p.SSAPkg("types")
